@@ -22,32 +22,32 @@ pub trait GrTy: Default + Clone + Update + FixedOutputDirty + Reset {
 }
 impl GrTy for Groestl256 {
     const B: usize = 64; const OUT: usize = 32;
-    fn counter(&mut self) -> u64 { *ic::g256(self).0 }
-    fn set_counter(&mut self, c: u64) { *ic::g256(self).0 = c; }
+    fn counter(&mut self) -> u64 { ic::g256(self).0 as u64 }
+    fn set_counter(&mut self, c: u64) { ic::g256_set_counter(self, c as u128) }
     fn cv(&mut self) -> [u8; 128] { ic::g256(self).1 }
     fn set_cv(&mut self, cv: &[u8; 128]) { ic::g256_set_cv(self, cv) }
     fn pos(&mut self) -> usize { ic::g256(self).2 }
 }
 impl GrTy for Groestl224 {
     const B: usize = 64; const OUT: usize = 28;
-    fn counter(&mut self) -> u64 { *ic::g256(ic::g224(self)).0 }
-    fn set_counter(&mut self, c: u64) { *ic::g256(ic::g224(self)).0 = c; }
+    fn counter(&mut self) -> u64 { ic::g256(ic::g224(self)).0 as u64 }
+    fn set_counter(&mut self, c: u64) { ic::g256_set_counter(ic::g224(self), c as u128) }
     fn cv(&mut self) -> [u8; 128] { ic::g256(ic::g224(self)).1 }
     fn set_cv(&mut self, cv: &[u8; 128]) { ic::g256_set_cv(ic::g224(self), cv) }
     fn pos(&mut self) -> usize { ic::g256(ic::g224(self)).2 }
 }
 impl GrTy for Groestl512 {
     const B: usize = 128; const OUT: usize = 64;
-    fn counter(&mut self) -> u64 { *ic::g512(self).0 }
-    fn set_counter(&mut self, c: u64) { *ic::g512(self).0 = c; }
+    fn counter(&mut self) -> u64 { ic::g512(self).0 as u64 }
+    fn set_counter(&mut self, c: u64) { ic::g512_set_counter(self, c as u128) }
     fn cv(&mut self) -> [u8; 128] { ic::g512(self).1 }
     fn set_cv(&mut self, cv: &[u8; 128]) { ic::g512_set_cv(self, cv) }
     fn pos(&mut self) -> usize { ic::g512(self).2 }
 }
 impl GrTy for Groestl384 {
     const B: usize = 128; const OUT: usize = 48;
-    fn counter(&mut self) -> u64 { *ic::g512(ic::g384(self)).0 }
-    fn set_counter(&mut self, c: u64) { *ic::g512(ic::g384(self)).0 = c; }
+    fn counter(&mut self) -> u64 { ic::g512(ic::g384(self)).0 as u64 }
+    fn set_counter(&mut self, c: u64) { ic::g512_set_counter(ic::g384(self), c as u128) }
     fn cv(&mut self) -> [u8; 128] { ic::g512(ic::g384(self)).1 }
     fn set_cv(&mut self, cv: &[u8; 128]) { ic::g512_set_cv(ic::g384(self), cv) }
     fn pos(&mut self) -> usize { ic::g512(ic::g384(self)).2 }
